@@ -1,13 +1,18 @@
 (* C12 - Every connection is torn down exactly once and releases all it acquired.
    Only property theorems here, each closed by [exact] of a lemma proved in Session/LifecycleProofs.v.
    All statements are about [run cfg ops] = the fold of [step] (the function the correspondence run
-   executes, extracted to OCaml) over an ARBITRARY operation list: any number of connections,
-   any interleaving of accepts (with the application's accept/hold/refuse decision), peer bytes
-   (well-formed, truncated or garbage), peer closes, injected I/O faults (EOF / reset / would-block
-   until timeout at any read, recv or write call index), application calls (rfbCloseClient also from
-   inside callbacks, rfbStartOnHoldClient, rfbRefuseOnHoldClient, rfbSendBell, ...), rfbProcessEvents,
-   rfbShutdownServer, rfbScreenCleanup; any configuration (screen size, authentication, sharing flags,
-   xvp hook, file-transfer permission). *)
+   executes, extracted to OCaml) over an ARBITRARY operation list: any number of connections
+   (handed over with rfbNewClient or accepted through the listening socket), any interleaving of
+   accepts (with the application's accept/hold/refuse decision), peer bytes (well-formed, truncated or
+   garbage), peer closes, injected I/O faults (EOF / reset / would-block until timeout at any read,
+   recv or write call index), application calls (rfbCloseClient also from inside callbacks,
+   rfbStartOnHoldClient, rfbRefuseOnHoldClient, rfbSendBell, ...), SetScale / PalmVNCSetScaleFactor
+   requests, rfbProcessEvents, rfbShutdownServer, rfbScreenCleanup; any configuration (screen size,
+   authentication, sharing flags, xvp hook, file-transfer permission).
+
+   The model mirrors /repo AFTER the fix commits b4cfd8a, 4d56b95, 8cd7191, 3fe86ea (the defects they
+   repair were found by this check: known_findings.d/C12.json, status "fixed"); the statements that
+   were refuted for the earlier code are now theorems. *)
 From Coq Require Import ZArith List Bool.
 From LV Require Import Gen.Consts_C12 Session.LifecycleModel Session.LifecycleProofs.
 Import ListNotations.
@@ -24,12 +29,15 @@ Theorem C12_gone_once_invariant : forall cfg ops k c, get (run cfg ops) k = Some
      l_gone (c_life c) = 0%nat /\ l_close (c_life c) = (if l_open (c_life c) then 0%nat else 1%nat)).
 Proof. exact exactly_once_invariant. Qed.
 
-(* --- "by the time the server is idle": after any history, one more rfbProcessEvents that returns
-   leaves every connection either still open or completely torn down (exactly one close, gone hook
-   count = new hook count). *)
+(* --- teardown completes: no operation sequence makes the library lock a mutex it already holds *)
+Theorem C12_no_deadlock : forall cfg ops, s_hung (run cfg ops) = false.
+Proof. exact never_blocks. Qed.
+
+(* --- "by the time the server is idle": after any history, one more rfbProcessEvents leaves every
+   connection either still open or completely torn down *)
 Theorem C12_gone_once_idle : forall cfg ops,
   let s := run cfg (ops ++ [OPe]) in
-  s_hung s = false -> s_cleaned s = false ->
+  s_cleaned s = false ->
   forall k c, get s k = Some c ->
     l_open (c_life c) = true \/
     (l_freed (c_life c) = true /\ l_close (c_life c) = 1%nat /\ l_gone (c_life c) = l_new (c_life c)).
@@ -37,93 +45,60 @@ Proof. exact reaped_when_idle. Qed.
 
 Example C12_gone_once_idle_nonvacuous :
   let s := run cfg0 ([OAccept DAccept [] true; OAccept DAccept [] true; OPeerClose 0] ++ [OPe]) in
-  s_hung s = false /\ s_cleaned s = false /\
+  s_cleaned s = false /\
   exists c, get s 0%nat = Some c /\ l_freed (c_life c) = true /\ l_gone (c_life c) = 1%nat.
 Proof. exact idle_nonvacuous. Qed.
 
-(* --- "... or shut down".  Full statement (REFUTED by the faithful model, see below):
-     forall cfg ops, let s := run cfg (ops ++ [OShutdown]) in s_hung s = false -> s_cleaned s = false ->
-     forall k c, get s k = Some c -> l_freed (c_life c) = true /\ l_close (c_life c) = 1 /\ l_gone (c_life c) = l_new (c_life c).
-   Provable part: when the shutdown is preceded by one turn of the event loop (which reaps the
-   clients whose socket is already closed), every connection ever accepted is torn down exactly
-   once and unreachable. *)
-Theorem C12_gone_once_partial : forall cfg ops,
-  let s := run cfg (ops ++ [OPe; OShutdown]) in
-  s_hung s = false -> s_cleaned s = false ->
+(* --- "... or shut down": after any history rfbShutdownServer tears every connection ever accepted
+   down exactly once (also the ones closed but not yet reaped) and leaves the client list empty of them *)
+Theorem C12_gone_once : forall cfg ops,
+  let s := run cfg (ops ++ [OShutdown]) in
+  s_cleaned s = false ->
   forall k c, get s k = Some c ->
     l_freed (c_life c) = true /\ l_close (c_life c) = 1%nat /\ l_gone (c_life c) = l_new (c_life c)
     /\ (l_new (c_life c) <= 1)%nat /\ ~ In k (s_order s).
 Proof. exact torn_down_after_shutdown. Qed.
 
-Example C12_gone_once_partial_nonvacuous :
-  let s := run cfg0 ([OAccept DAccept [] true; OAccept DHold [] true; OAppClose 0] ++ [OPe; OShutdown]) in
-  s_hung s = false /\ s_cleaned s = false /\ length (s_conns s) = 2%nat.
+Example C12_gone_once_nonvacuous :
+  let s := run cfg0 ([OAccept DAccept [] true; OAccept DHold [] true; OAppClose 0] ++ [OShutdown]) in
+  s_cleaned s = false /\ length (s_conns s) = 2%nat /\
+  exists c, get s 0%nat = Some c /\ l_freed (c_life c) = true /\ l_gone (c_life c) = 1%nat.
 Proof. exact shutdown_nonvacuous. Qed.
 
-(* the iterator used by rfbShutdownServer / rfbScreenCleanup skips clients whose socket is already
-   -1: after rfbCloseClient + rfbShutdownServer + rfbScreenCleanup the application's clientGoneHook
-   has not run and the record is still allocated (replayed on the library: corpus/C12) *)
-Theorem C12_gone_once_refuted :
-  exists ops k c, let s := run cfg0 (ops ++ [OShutdown; OCleanup]) in
-    s_hung s = false /\ get s k = Some c /\ l_new (c_life c) = 1%nat /\ l_gone (c_life c) = 0%nat /\
-    l_freed (c_life c) = false.
-Proof. exact shutdown_skips_closed_client. Qed.
-
-(* with notes/fix_C12_3.diff (switch g_fix_iter) the full statement holds: no preceding event-loop turn needed *)
-Theorem C12_gone_once_fixed : forall cfg ops, g_fix_iter cfg = true ->
-  let s := run cfg (ops ++ [OShutdown]) in
-  s_hung s = false -> s_cleaned s = false ->
-  forall k c, get s k = Some c ->
+Theorem C12_gone_once_cleanup : forall cfg ops,
+  s_cleaned (run cfg ops) = false ->
+  forall k c, get (run cfg (ops ++ [OCleanup])) k = Some c ->
     l_freed (c_life c) = true /\ l_close (c_life c) = 1%nat /\ l_gone (c_life c) = l_new (c_life c).
-Proof. exact torn_down_after_shutdown_fixed. Qed.
+Proof. exact torn_down_after_cleanup. Qed.
 
-Example C12_gone_once_fixed_nonvacuous :
-  let s := run cfg_fixed ([OAccept DAccept [] true; OAccept DHold [] true; OAppClose 0] ++ [OShutdown]) in
-  s_hung s = false /\ s_cleaned s = false /\
-  exists c, get s 0%nat = Some c /\ l_freed (c_life c) = true /\ l_gone (c_life c) = 1%nat.
-Proof. exact shutdown_fixed_nonvacuous. Qed.
-
-(* --- teardown completes.  Full statement (REFUTED): forall cfg ops, s_hung (run cfg ops) = false.
-   Witness without any injected fault, callback decision or application call: a file-transfer
-   request followed by a disconnect leaves outputMutex locked (rfbWriteExact returns early when
-   sock == -1) and rfbClientConnectionGone locks it again. *)
-Theorem C12_no_deadlock_refuted :
-  exists ops, s_hung (run cfg_ft ops) = true /\
-              Forall (fun o => match o with OFault _ _ | OAppXvp _ | OCutText8 => False | _ => True end) ops.
-Proof. exact teardown_can_deadlock. Qed.
-
-(* with notes/fix_C12_1.diff and fix_C12_4.diff (switches g_fix_wlock, g_fix_cut8) the full statement holds:
-   no operation sequence whatsoever makes a teardown block, and the idle statement needs no hypothesis
-   about termination any more *)
-Theorem C12_no_deadlock_fixed : forall cfg ops, g_fix_wlock cfg = true -> g_fix_cut8 cfg = true ->
-  s_hung (run cfg ops) = false.
-Proof. exact no_deadlock_with_fixes. Qed.
-
-Example C12_no_deadlock_fixed_nonvacuous :
-  let s := run cfg_fixed ([OAccept DAccept [] true] ++ hs 0 ++ [OIn 0 ft_request; OPeerClose 0; OPe; OCutText8; OPe]) in
-  s_hung s = false /\ exists c, get s 0%nat = Some c /\ l_freed (c_life c) = true /\ l_gone (c_life c) = 1%nat.
-Proof. exact no_deadlock_fixed_nonvacuous. Qed.
-
-Theorem C12_gone_once_idle_fixed : forall cfg ops, g_fix_wlock cfg = true -> g_fix_cut8 cfg = true ->
-  let s := run cfg (ops ++ [OPe]) in
-  s_cleaned s = false ->
-  forall k c, get s k = Some c ->
-    l_open (c_life c) = true \/
-    (l_freed (c_life c) = true /\ l_close (c_life c) = 1%nat /\ l_gone (c_life c) = l_new (c_life c)).
-Proof. exact reaped_when_idle_fixed. Qed.
-
-(* --- released: a torn-down connection holds nothing any more; the only resource that
-   rfbClientConnectionGone does not release is the file-transfer descriptor, and without the
-   file-transfer permission nothing at all is left *)
-Theorem C12_released_partial : forall cfg ops k c, get (run cfg ops) k = Some c -> l_freed (c_life c) = true ->
-  p_res (c_proto c) = [] /\ (forall r, In r (c_leak c) -> r = RFileFd) /\
-  (g_ft cfg = false \/ g_fix_ftfd cfg = true -> c_leak c = []).
+(* --- released: nothing is ever left behind by a teardown, a freed record holds nothing *)
+Theorem C12_released : forall cfg ops k c, get (run cfg ops) k = Some c ->
+  c_leak c = [] /\ (l_freed (c_life c) = true -> p_res (c_proto c) = []).
 Proof. exact released_after_gone. Qed.
 
-Theorem C12_filetransfer_fd_refuted :
-  exists ops k c, let s := run cfg_ft ops in
-    s_hung s = false /\ get s k = Some c /\ l_freed (c_life c) = true /\ c_leak c = [RFileFd].
-Proof. exact filetransfer_fd_leaks. Qed.
+(* scaled-screen references: rfbClientConnectionGone gives back exactly the reference the client holds -
+   on the scaled screen it had switched to, or on the unscaled one - and touches no other count;
+   rfbCloseClient touches none *)
+Theorem C12_scaled_reference_released : forall k s c, s_hung s = false -> live s k = Some c ->
+  p_outlock (c_proto c) || p_sendlock (c_proto c) = false ->
+  let s' := connection_gone k s in
+  if p_scaled (c_proto c)
+  then s_ref s' = s_ref s /\ s_scaled s' = adj_scaled (p_sw (c_proto c)) (p_sh (c_proto c)) (-1) (s_scaled s)
+  else s_ref s' = (s_ref s - 1)%Z /\ s_scaled s' = s_scaled s.
+Proof. exact gone_releases_own_reference. Qed.
+
+Example C12_scaled_reference_released_nonvacuous :
+  let pre := [OAccept DAccept [] true] ++ hs 0 ++ [OAccept DAccept [] true] ++ hs 1 ++ [OAccept DAccept [] true] ++ hs 2
+             ++ [OIn 0 (setscale 2); OPe; OIn 1 (15 :: tl (setscale 2))%Z; OPe] in
+  s_scaled (run cfg0 pre) = [(4, 4, 2)]%Z /\ s_ref (run cfg0 pre) = 1%Z /\
+  s_scaled (run cfg0 (pre ++ [OPeerClose 0; OPe])) = [(4, 4, 1)]%Z /\ s_ref (run cfg0 (pre ++ [OPeerClose 0; OPe])) = 1%Z /\
+  s_scaled (run cfg0 (pre ++ [OShutdown])) = [(4, 4, 0)]%Z /\ s_ref (run cfg0 (pre ++ [OShutdown])) = 0%Z.
+Proof. exact scaled_nonvacuous. Qed.
+
+Theorem C12_close_keeps_references : forall k s,
+  s_ref (close_client k s) = s_ref s /\ s_scaled (close_client k s) = s_scaled s
+  /\ s_ptr (close_client k s) = s_ptr s /\ s_order (close_client k s) = s_order s /\ s_cfg (close_client k s) = s_cfg s.
+Proof. exact close_keeps_references. Qed.
 
 (* --- unreachable: the client list contains exactly the records that are not freed, and client
    iteration (which additionally skips closed sockets) only yields open, live records *)
@@ -135,13 +110,10 @@ Theorem C12_iteration_open_only : forall s k, is_open s k = true ->
   exists c, get s k = Some c /\ l_freed (c_life c) = false /\ l_open (c_life c) = true.
 Proof. exact iteration_yields_open_only. Qed.
 
-(* --- others untouched: tearing down connection k (rfbCloseClient, rfbClientConnectionGone), handling
-   one of its messages, sending it an update or reaping it leaves the record - protocol state,
-   resources, counters, input queue and output count - of every other connection unchanged; the
-   shared screen fields a teardown may change are allFds/maxFd, the scaled reference count,
-   pointerClient, the client list and the event log (everything else is listed as unchanged).
-   The documented exception is the ClientInit of a non-shared client (C14), which is not covered
-   by [process_normal]. *)
+(* --- others untouched: tearing down connection k, handling one of its messages (SetScale included),
+   sending it an update or reaping it leaves the record - protocol state, resources, counters, input
+   queue, write count, scaled size - of every other connection unchanged.  The documented exception
+   is the ClientInit of a non-shared client (C14), which is not covered by [process_normal]. *)
 Theorem C12_others_untouched : forall k j s, j <> k ->
   get (close_client k s) j = get s j /\ get (connection_gone k s) j = get s j.
 Proof. exact teardown_frame. Qed.
@@ -150,9 +122,16 @@ Theorem C12_others_untouched_messages : forall k j cur s, j <> k ->
   get (process_normal k cur s) j = get s j /\ get (update_client k s) j = get s j /\ get (reap_one s k) j = get s j.
 Proof. exact message_frame. Qed.
 
-Theorem C12_teardown_shared_fields : forall k s,
-  s_cfg (connection_gone k s) = s_cfg s /\ s_faults (connection_gone k s) = s_faults s /\
-  s_ioc (connection_gone k s) = s_ioc s /\ s_bad (connection_gone k s) = s_bad s /\
-  s_cfg (close_client k s) = s_cfg s /\ s_ref (close_client k s) = s_ref s /\ s_ptr (close_client k s) = s_ptr s /\
-  s_order (close_client k s) = s_order s.
-Proof. exact teardown_shared_fields. Qed.
+(* --- regression anchors: the witnesses of the four repaired defects, and a refusal on the
+   listening-socket path, end with exactly one close and one gone hook *)
+Theorem C12_former_witnesses :
+  (exists c, get (run cfg_ft ([OAccept DAccept [] true] ++ hs 0 ++ [OIn 0 ft_request; OPeerClose 0; OPe; OCutText8; OPe])) 0%nat = Some c
+             /\ l_freed (c_life c) = true /\ l_gone (c_life c) = 1%nat /\ c_leak c = []) /\
+  (exists c, get (run cfg0 ([OAccept DAccept [] true; OAppClose 0] ++ [OCleanup])) 0%nat = Some c
+             /\ l_freed (c_life c) = true /\ l_gone (c_life c) = 1%nat).
+Proof. exact former_witnesses. Qed.
+
+Theorem C12_listen_refuse_closed_once :
+  exists c, get (run cfg0 [OLAccept DRefuse [] true; OPe]) 0%nat = Some c /\
+            l_freed (c_life c) = true /\ l_close (c_life c) = 1%nat /\ l_gone (c_life c) = 1%nat.
+Proof. exact listen_refuse_nonvacuous. Qed.
